@@ -1188,6 +1188,11 @@ class Convention(abc.ABC, Generic[GridKind, Index]):
 
             data_array = utils.name_to_data_array(self.dataset, data_array)
 
+            if self.get_grid_kind(data_array) != self.default_grid_kind:
+                raise ValueError(
+                    "Data array is not defined on the cells of this dataset - "
+                    "only data on the default grid kind can colour the cell polygons")
+
             data_array = self.ravel(data_array)
             if len(data_array.dims) > 1:
                 raise ValueError(
@@ -1265,6 +1270,11 @@ class Convention(abc.ABC, Generic[GridKind, Index]):
                     f"u dimensions: {tuple(u.dims)}\n"
                     f"v dimensions: {tuple(v.dims)}"
                 )
+
+            if self.get_grid_kind(u) != self.default_grid_kind:
+                raise ValueError(
+                    "Vector data arrays are not defined on the cells of this dataset - "
+                    "only data on the default grid kind can be drawn at the face centres")
 
             u, v = self.ravel(u), self.ravel(v)
 
